@@ -154,6 +154,10 @@ func dischargeAll(obs []*Obligation, workdir string, tlim int, par int, only str
 		go func(i int, ob *Obligation) {
 			defer wg.Done()
 			defer func() { <-sem }()
+			if ob.errText != "" {
+				res[i] = Result{Ob: ob, Status: "error", Solver: "govc", Output: "the contract of this function no longer applies to its code: " + ob.errText}
+				return
+			}
 			q := ob.Query()
 			tl, on := tlim, only
 			// relevance slices first: smaller contexts prove most
